@@ -51,6 +51,13 @@ def gen_case(rng, tier):
     if engine == "it" and rng.random() < 0.12:
         other = g.leaf(state[2], want_cols=sorted(state[1])[:1])
         state = (["join", state[0], other[0], None, None], state[1] | other[1], state[2])
+    if rng.random() < 0.1:
+        # a join requested through an explicit Join operation with resolved equality columns drawn
+        # at random (the operands may lack them: then construction has to refuse, otherwise the
+        # accepted tree has to compile and execute like any other)
+        other = g.leaf(state[2], want_cols=rng.sample("abcd", rng.randint(1, 2)), allow_special=False)
+        jopt = {"minmax": rng.sample("abcd", rng.randint(1, 2)), "partial": rng.random() < 0.7, "is_lhs": rng.random() < 0.3}
+        state = (["join", state[0], other[0], None, jopt], state[1] | other[1], state[2])
     case = gen.case_from(g, state)
     case["engine"] = engine
     return case
